@@ -116,9 +116,9 @@ def gen_rule(rng, rels, opts, head_rels=None, first=None):
         g.bound.append(x)
         body.append(("cond", ("letc", x, rng.choice(DOM))) if rng.random() < 0.6 else ("gen", x, "range3", []))
         c1 = g.clause()
-        if all(t[0] == "v" and t[1] != x for t in c1[2]) and len({t[1] for t in c1[2]}) == len(c1[2]) and not c1[3]:
+        if c1[2] and all(t[0] == "v" and t[1] != x for t in c1[2]) and len({t[1] for t in c1[2]}) == len(c1[2]) and not c1[3]:
             body.append(c1)
-            name, arity, _ = rng.choice(rels)
+            name, arity, _ = rng.choice([r for r in rels if r[1] >= 1] or rels)
             vs1 = [t[1] for t in c1[2]]
             args = [("v", x)] + [("v", rng.choice(vs1)) if rng.random() < 0.6 else ("v", g.fresh()) for _ in range(arity - 1)]
             rng.shuffle(args)
@@ -142,7 +142,7 @@ def gen_program(rng, opts=None):
     """a core-language program (C01 language) with some recursion structure"""
     opts = dict(opts or {})
     nrel = rng.choice(opts.get("nrels", [2, 3, 3, 4, 5]))
-    rels = [("r%d" % i, rng.choice(opts.get("arities", [1, 2, 2, 2, 3])), "rel") for i in range(nrel)]
+    rels = [("r%d" % i, rng.choice(opts.get("arities", [0, 1, 1, 2, 2, 2, 2, 3, 3])), "rel") for i in range(nrel)]
     nrules = rng.choice(opts.get("nrules", [1, 2, 3, 3, 4, 5, 6]))
     rules = []
     shape = rng.choice(["free", "free", "linear", "nonlinear", "mutual", "chain"])
